@@ -263,6 +263,9 @@ pub fn sweep(cases: Arc<Vec<Case>>, cfg: Arc<DevConfig>, f32_full: bool) -> DevR
     };
     let touts: Vec<Timeout> = run_jobs(n_jobs, crate::pool::ncpu(), cfg.per_call_limit, Arc::new(f));
     let mut fs = findings.lock().unwrap().clone();
+    // each confirmation of a call that never returns costs four time limits and one more busy core: confirm the
+    // first few, list the others only if every confirmation attempted so far succeeded
+    let (mut tried, mut confirmed_n) = (0usize, 0usize);
     for t in touts {
         let (ci, si, p) = jobs[t.job];
         let seed = if p >= 1000 { cfg.seeds[0] } else { cfg.seeds[si] };
@@ -271,11 +274,19 @@ pub fn sweep(cases: Arc<Vec<Case>>, cfg: Arc<DevConfig>, f32_full: bool) -> DevR
         } else {
             let pos = if p >= 1000 { p - 1000 } else { p };
             let (script, cont) = base_script(seed, pos, Some(t.aux));
+            if tried >= 4 {
+                if confirmed_n == tried {
+                    fs.push(DevFinding { case: ci, kind: "timeout", detail: format!("one sample() call ran longer than {:?}", cfg.per_call_limit), seed, pos, word: t.aux, script, requests: 0 });
+                }
+                continue;
+            }
+            tried += 1;
             // confirm on a fresh thread with its own clock (a descheduled worker on a loaded machine must not count)
             let case = cases[ci].clone();
             let sc = script.clone();
             let (tx, rx) = std::sync::mpsc::channel();
             std::thread::spawn(move || {
+                crate::exec::set_managed(true);
                 let t0 = std::time::Instant::now();
                 if let Some(s) = (case.build)() {
                     let _ = run_cont(&*s, &sc, cont);
@@ -287,6 +298,7 @@ pub fn sweep(cases: Arc<Vec<Case>>, cfg: Arc<DevConfig>, f32_full: bool) -> DevR
                 Err(_) => true,
             };
             if confirmed {
+                confirmed_n += 1;
                 fs.push(DevFinding { case: ci, kind: "timeout", detail: format!("one sample() call ran longer than {:?}", cfg.per_call_limit), seed, pos, word: t.aux, script, requests: 0 });
             }
         }
